@@ -309,23 +309,26 @@ def class_features(cl, ver: str, mode: str, den, obs, pinned) -> dict:
 
 
 def class_worker(job):
-    ver, states, fn_mod = job
+    ver, states, fn_mod, xsd_mod = job
     bag = Bag()
+    t_cpu = time.process_time()
     for idx, (cl, den, pinned) in enumerate(states):
         text = render_class(cl)
-        case0 = dict(kind='class', pattern=text, xsd_version=ver)
+        h = zlib.crc32(text.encode())
+        case0 = dict(kind='class', pattern=text, xsd_version=ver, should_match=[CH[c] for c in sorted(den)],
+                     should_not_match=[CH[c] for c in SIGMA if c not in den])
         bag.add('classes')
         if den and den != frozenset(SIGMA):
             bag.add('nontrivial')
-        for mode in ('xpath', 'xsd'):
+        for mode in ('xpath', 'xsd') if h % xsd_mod == 0 else ('xpath',):
             obs = char_set(compile_pattern(text, '', ver, mode == 'xsd'), mode == 'xsd')
             bag.add('evaluations', 9)
             if obs != den:
                 bag.fail(class_features(cl, ver, mode, den, obs, pinned), dict(case0, mode=mode),
                          names(den), obs if isinstance(obs, tuple) else names(obs),
                          f'{text} ({mode}, XSD {ver}) should match exactly {{{names(den)}}}')
-        if fn_mod and (zlib.crc32(text.encode()) % fn_mod == 0):
-            for version in ('2.0', '3.1'):
+        if fn_mod and (h % fn_mod == 1):
+            for version in (('2.0',) if h & 64 else ('3.1',)):
                 got = set()
                 err = None
                 for ch in SIGMA:
@@ -358,6 +361,7 @@ def class_worker(job):
                 bag.oracle.append(dict(pattern=text, spec=names(den), unicodedata=names(uset)))
         if len(bag.samples) < 2 and cl['sub'] and cl['neg'] and den:
             bag.samples.append(dict(pattern=text, xsd_version=ver, matches_exactly=names(den)))
+    bag.add('cpu_s', time.process_time() - t_cpu)
     return bag.result()
 
 
@@ -370,31 +374,34 @@ ALL_ITEMS = {"NL", "SP", "HY", "5", "A", "_", "a", "b", "AS", "a-b", "A-a", "5-A
              "pL", "PL", "pLu", "PLu", "pNd", "pP", "PP", "pZs", "pS", "PS", "pCc"}
 
 CLASS_CONFIGS = {
+    # name, XSD version, constants, fn:matches on 1/n of the classes, XSD-mode translation on 1/n
     'quick': [
-        ('items', '1.0', dict(ItemNames=ALL_ITEMS, ItemNames3={"a", "5", "NL", "D", "S", "d", "A-a", "PL"},
-                              SubNames=set(), MaxItems=3, MaxSubItems=1), 4),
-        ('items11', '1.1', dict(ItemNames=ALL_ITEMS, ItemNames3=set(), SubNames=set(), MaxItems=2, MaxSubItems=1), 8),
-        ('sub', '1.0', dict(ItemNames={"a", "b", "5", "NL", "AS", "a-b", "5-A", "d", "D", "S", "w", "PL"},
-                            ItemNames3=set(), SubNames={"a", "5", "d", "D", "S", "a-b"}, MaxItems=2, MaxSubItems=2), 16),
+        ('items2', '1.0', dict(ItemNames=ALL_ITEMS, ItemNames3=set(), SubNames=set(), MaxItems=2, MaxSubItems=1), 16, 4),
+        ('items3', '1.0', dict(ItemNames={"a", "b", "5", "NL", "AS", "a-b", "d", "D", "S", "W", "PL", "i"},
+                               ItemNames3={"a", "5", "D", "S"}, SubNames=set(), MaxItems=3, MaxSubItems=1), 16, 4),
+        ('items11', '1.1', dict(ItemNames={"a", "AS", "5", "i", "I", "c", "C", "d", "D", "w"}, ItemNames3=set(),
+                                SubNames=set(), MaxItems=2, MaxSubItems=1), 8, 2),
+        ('sub', '1.0', dict(ItemNames={"a", "5", "AS", "a-b", "d", "D", "S", "w"}, ItemNames3=set(),
+                            SubNames={"a", "5", "d", "D", "S"}, MaxItems=2, MaxSubItems=2), 64, 8),
     ],
     'thorough': [
         ('items', '1.0', dict(ItemNames=ALL_ITEMS | {"pLl", "PLl", "PNd", "pN", "PN", "pPd", "PPd", "pPc", "pZ", "PZ",
                                                       "pC", "PC", "PCc", "pSo", "PSo", "NL-AS", "_-AS", "a-a"},
-                              ItemNames3={"a", "5", "NL", "AS", "HY", "D", "S", "W", "d", "s", "A-a", "PL", "pLu", "I", "c"},
-                              SubNames=set(), MaxItems=3, MaxSubItems=1), 2),
+                              ItemNames3={"a", "5", "NL", "AS", "D", "S", "W", "d", "A-a", "PL", "I"},
+                              SubNames=set(), MaxItems=3, MaxSubItems=1), 16, 4),
         ('items11', '1.1', dict(ItemNames=ALL_ITEMS, ItemNames3={"a", "AS", "i", "I", "c", "C", "D", "d"},
-                                SubNames=set(), MaxItems=3, MaxSubItems=1), 4),
-        ('sub', '1.0', dict(ItemNames={"a", "b", "5", "NL", "AS", "HY", "a-b", "5-A", "d", "D", "S", "W", "w", "PL", "pLu", "i", "C"},
-                            ItemNames3=set(), SubNames={"a", "5", "NL", "d", "D", "S", "W", "a-b", "PL", "i"},
-                            MaxItems=2, MaxSubItems=2), 8),
+                                SubNames=set(), MaxItems=3, MaxSubItems=1), 16, 4),
+        ('sub', '1.0', dict(ItemNames={"a", "b", "5", "NL", "AS", "HY", "a-b", "5-A", "d", "D", "S", "W", "w", "PL", "i", "C"},
+                            ItemNames3=set(), SubNames={"a", "5", "NL", "d", "D", "S", "W", "a-b", "PL"},
+                            MaxItems=2, MaxSubItems=2), 64, 8),
         ('sub11', '1.1', dict(ItemNames={"a", "AS", "5", "d", "D", "i", "I", "c", "C", "w"}, ItemNames3=set(),
-                              SubNames={"a", "AS", "D", "i", "C"}, MaxItems=2, MaxSubItems=2), 8),
+                              SubNames={"a", "AS", "D", "i", "C"}, MaxItems=2, MaxSubItems=2), 32, 8),
     ],
 }
 
 
 def run_classes(chk: core.Check, totals: dict) -> None:
-    for name, ver, consts, fn_mod in CLASS_CONFIGS[chk.tier]:
+    for name, ver, consts, fn_mod, xsd_mod in CLASS_CONFIGS[chk.tier]:
         graphs = {}
         for variant in ('fixed', 'pinned'):
             wd = os.path.join(chk.scratch, f'class-{name}-{variant}')
@@ -417,12 +424,531 @@ def run_classes(chk: core.Check, totals: dict) -> None:
                   for st in g.states.values() if st['items']]
         states.sort(key=lambda x: render_class(x[0]))
         t0 = time.time()
-        jobs = [(ver, ch, fn_mod) for ch in core.chunked(states, 64)]
+        jobs = [(ver, ch, fn_mod, xsd_mod) for ch in core.chunked(states, 64)]
         collect(chk, core.pool_map(class_worker, jobs, procs=PROCS), totals)
         chk.add('transitions', len(g.edges))
         chk.add('traces_validated_against_impl', len(states))
         print(f'  RegexClass/{name}: states={len(g.states)} pinned-model-refuted={refuted} '
               f'replay={time.time() - t0:.1f}s', flush=True)
+
+
+# ------------------------------------------------------------------------------------------
+# RegexAst: every pattern of the graph x every subject of the universe
+
+NATIVE_OK = {'chr', 'any', 'cls', 'esc', 'cat', 'alt', 'star', 'plus', 'opt', 'rep', 'grp', 'dup'}
+
+
+def native_supported(r, flag: str) -> bool:
+    """fragment that Python's re supports natively with identical meaning"""
+    if flag not in ('', 's', 'i'):
+        return False
+    for x in walk(r):
+        if x['t'] not in NATIVE_OK:
+            return False
+        if x['t'] == 'esc' and x['e'] not in NATIVE_ESC:
+            return False
+        if x['t'] == 'cls':
+            for g in [x] + list(x['sub']):
+                if any(it['k'] == 'e' and it['e'] not in NATIVE_ESC for it in g['items']):
+                    return False
+    return True
+
+
+def has_space(r) -> bool:
+    for x in walk(r):
+        if x['t'] == 'chr' and x['c'] == 2:
+            return True
+        if x['t'] == 'cls' and any(it['k'] == 'c' and it['c'] == 2 or it['k'] == 'r' and it['lo'] <= 2 <= it['hi']
+                                   for g in [x] + list(x['sub']) for it in g['items']):
+            return True
+    return False
+
+
+def show(strings, cap=6):
+    return [subj(s) for s in sorted(strings, key=lambda t: (len(t), t))[:cap]]
+
+
+def direction(obs, exp) -> str:
+    if isinstance(obs, tuple):
+        return ':'.join(map(str, obs))
+    return 'accepts_too_much' if obs > exp else 'rejects_too_much' if obs < exp else 'both'
+
+
+def ast_worker(job):
+    flag, ver, states, subjects, fn_mod = job
+    texts = {s: subj(s) for s in subjects}
+    bag = Bag()
+    fails = []
+    t_cpu = time.process_time()
+
+    def report(r, mode, which, p, exp, obs, extra=None):
+        d = direction(obs, exp)
+        case = dict(kind='ast', pattern=p, flag=flag, xsd_version=ver, mode=mode, which=which)
+        if extra:
+            case.update(extra)
+        if isinstance(obs, tuple):
+            e, o = show(exp), list(obs)
+            case.update(should_match=e, should_not_match=[])
+        else:
+            e, o = show(exp - obs), show(obs - exp)
+            case.update(should_match=e, should_not_match=o)
+        fails.append((atom_tags(r), depth(r), mode, which, d, case, e, o))
+
+    for r, full, found in states:
+        types = node_types(r)
+        bag.add('patterns')
+        nontrivial = 0
+        sep = ' ' if flag == 'x' else ''
+        if flag == 'x' and has_space(r):
+            bag.add('skipped_x_space')
+            continue
+        # --- XPath mode: translate_pattern defaults, re.search / re.fullmatch
+        for ncg in ('(?:', '('):
+            p = render(r, ncg, sep)
+            if ncg == '(' and '(?:' not in render(r, '(?:', sep):
+                continue        # same text
+            c = compile_pattern(p, flag, ver, False)
+            if isinstance(c, tuple):
+                report(r, 'xpath', 'search', p, found, c)
+                continue
+            o_found = frozenset(s for s in subjects if c.search(texts[s]) is not None)
+            o_full = frozenset(s for s in subjects if c.fullmatch(texts[s]) is not None)
+            bag.add('evaluations', 2 * len(subjects))
+            nontrivial += sum(1 for s in subjects if (s in found) != (s in full))
+            if o_found != found:
+                report(r, 'xpath', 'search', p, found, o_found)
+            if o_full != full:
+                report(r, 'xpath', 'full', p, full, o_full)
+        # --- XSD mode: anchors=False, no back-references, no lazy quantifiers: implicit full match
+        if not (types & {'bol', 'eol', 'dup', 'starL', 'plusL', 'optL', 'repL'}):
+            p = render(r, '(', sep)
+            c = compile_pattern(p, flag, ver, True)
+            if isinstance(c, tuple):
+                report(r, 'xsd', 'full', p, full, c)
+            else:
+                o = frozenset(s for s in subjects if c.search(texts[s]) is not None)
+                bag.add('evaluations', len(subjects))
+                if o != full:
+                    report(r, 'xsd', 'full', p, full, o)
+        # --- fn:matches through the XPath parsers
+        p = render(r, '(?:', sep)
+        h = zlib.crc32(p.encode())
+        if fn_mod and h % fn_mod == 0:
+            version = ('2.0', '3.0', '3.1')[(h >> 8) % 3]
+            if version == '2.0':
+                p = render(r, '(', sep)
+            got, err = set(), None
+            for s in subjects:
+                res = fn_matches(texts[s], p, flag, version, ver)
+                bag.add('evaluations')
+                if res is True:
+                    got.add(s)
+                elif res is not False:
+                    err = res
+            o = err if err is not None else frozenset(got)
+            if o != found:
+                report(r, 'fn:matches', 'search', p, found, o, dict(parser=version))
+        # --- second oracle for the SPEC: Python's re on the natively supported fragment
+        if native_supported(r, flag):
+            n = re.compile(render(r, '(?:', '', native=True), RE_FLAGS[flag])
+            n_full = frozenset(s for s in subjects if n.fullmatch(texts[s]) is not None)
+            n_found = frozenset(s for s in subjects if n.search(texts[s]) is not None)
+            bag.add('second_oracle_evaluations', 2 * len(subjects))
+            if n_full != full or n_found != found:
+                bag.oracle.append(dict(native=n.pattern, flag=flag, full_diff=show(n_full ^ full),
+                                       found_diff=show(n_found ^ found)))
+        bag.add('nontrivial', 1 if (found and len(found) < len(subjects)) else 0)
+        if len(bag.samples) < 1 and depth(r) >= 2 and 0 < len(full) < len(found) < len(subjects):
+            bag.samples.append(dict(pattern=render(r), flag=flag, full_matches=show(full, 4), not_found=show(set(subjects) - found, 4)))
+    bag.add('cpu_s', time.process_time() - t_cpu)
+    st, _, odis, n_odis, samples = bag.result()
+    return st, fails, odis, n_odis, samples
+
+
+WIDE_ATOMS = {"NL", "SP", "HY", "5", "A", "_", "a", "b", "AS", "any", "d", "D", "s", "S", "w", "W", "i", "I", "c", "C",
+              "pL", "PL", "pLu", "PLu", "pLl", "pNd", "PNd", "pP", "PP", "pPd", "pPc", "pZs", "PZs", "pCc", "PC", "pS", "PSo",
+              "c_ab", "c_na", "c_A", "c_rg", "c_r5", "c_nr5", "c_sub", "c_nsn", "c_dn", "c_nS", "c_wsb", "c_sp"}
+ALL_UNARIES = {"star", "plus", "opt", "starL", "plusL", "optL", "rep2", "rep12", "rep1U", "rep0U", "rep02", "rep00",
+               "rep12L", "grp", "dup"}
+U5 = {"star", "plus", "opt", "rep2", "dup"}
+
+AST_CONFIGS = {
+    # name, Flag, XsdVersion, constants, fn:matches on 1/n of the patterns, check the (slower) SearchLaw too
+    'quick': [
+        ('wide', '', '1.0', dict(AtomNames=WIDE_ATOMS, OperandNames={"a", "NL", "any", "d"}, OperandDepth=0,
+                                 Unaries=ALL_UNARIES, Unaries2=set(), Binaries={"cat", "alt"}, MaxDepth=1,
+                                 SubjChars=set(SIGMA), MaxLen=2), 16, True),
+        ('deep', '', '1.0', dict(AtomNames={"a", "b", "any", "c_na"}, OperandNames={"a", "b", "any", "c_na"}, OperandDepth=1,
+                                 Unaries=U5, Unaries2=U5, Binaries={"cat", "alt"}, MaxDepth=2,
+                                 SubjChars={1, 7, 8}, MaxLen=3), 64, False),
+        ('anchors', '', '1.0', dict(AtomNames={"a", "NL", "bol", "eol", "any"}, OperandNames={"a", "NL", "bol", "eol", "any"},
+                                    OperandDepth=0, Unaries={"star", "opt", "rep2", "grp"}, Unaries2={"star", "opt"},
+                                    Binaries={"cat", "alt"}, MaxDepth=2, SubjChars={1, 7}, MaxLen=4), 16, True),
+        ('anchors-m', 'm', '1.0', dict(AtomNames={"a", "NL", "bol", "eol", "any"}, OperandNames={"a", "NL", "bol", "eol", "any"},
+                                       OperandDepth=0, Unaries={"star", "opt", "rep2", "grp"}, Unaries2={"star", "opt"},
+                                       Binaries={"cat", "alt"}, MaxDepth=2, SubjChars={1, 7}, MaxLen=4), 16, True),
+        ('dotall', 's', '1.0', dict(AtomNames={"any", "NL", "a", "c_na", "S", "bol", "eol"}, OperandNames={"any", "NL", "a"},
+                                    OperandDepth=0, Unaries={"star", "plus", "opt", "rep12", "starL"}, Unaries2=set(),
+                                    Binaries={"cat", "alt"}, MaxDepth=1, SubjChars={1, 7, 8}, MaxLen=3), 8, True),
+        ('icase', 'i', '1.0', dict(AtomNames={"a", "A", "b", "5", "_", "c_A", "c_nA", "c_r5", "c_nr5", "c_ab", "c_rg", "c_na",
+                                              "pLu", "PLu", "pLl", "any"},
+                                   OperandNames={"a", "A"}, OperandDepth=0, Unaries={"star", "dup", "rep2", "opt"},
+                                   Unaries2=set(), Binaries={"cat", "alt"}, MaxDepth=1,
+                                   SubjChars={4, 5, 6, 7, 8}, MaxLen=2), 8, True),
+        ('verbose', 'x', '1.0', dict(AtomNames={"a", "HY", "5", "NL", "any", "d", "S", "pL", "c_ab", "c_na", "c_sub", "bol", "eol"},
+                                     OperandNames={"a", "NL", "d"}, OperandDepth=0,
+                                     Unaries={"star", "plusL", "rep12", "rep1U", "grp", "dup"}, Unaries2=set(),
+                                     Binaries={"cat", "alt"}, MaxDepth=1, SubjChars={1, 3, 4, 7, 8}, MaxLen=2), 8, True),
+        ('xsd11', '', '1.1', dict(AtomNames={"i", "I", "c", "C", "AS", "a", "w", "HY"}, OperandNames={"a", "AS"}, OperandDepth=0,
+                                  Unaries={"star", "rep2", "grp"}, Unaries2=set(), Binaries={"cat", "alt"}, MaxDepth=1,
+                                  SubjChars={3, 4, 7, 9}, MaxLen=2), 8, True),
+    ],
+}
+AST_CONFIGS['thorough'] = AST_CONFIGS['quick'][2:] + [
+    ('wide', '', '1.0', dict(AtomNames=WIDE_ATOMS, OperandNames={"a", "NL", "any", "d", "AS", "c_na", "W"}, OperandDepth=0,
+                             Unaries=ALL_UNARIES, Unaries2={"star", "opt", "rep12", "grp"}, Binaries={"cat", "alt"}, MaxDepth=2,
+                             SubjChars=set(SIGMA), MaxLen=2), 64, False),
+    ('deep', '', '1.0', dict(AtomNames={"a", "b", "any", "d", "c_na", "NL"}, OperandNames={"a", "b", "any", "d", "c_na", "NL"},
+                             OperandDepth=1, Unaries=U5 | {"grp", "starL"}, Unaries2=U5 | {"grp", "starL"},
+                             Binaries={"cat", "alt"}, MaxDepth=2, SubjChars={1, 4, 7, 8}, MaxLen=3), 256, False),
+    ('deep-i', 'i', '1.0', dict(AtomNames={"a", "A", "c_nA", "c_r5"}, OperandNames={"a", "A", "c_nA", "c_r5"},
+                                OperandDepth=1, Unaries={"star", "opt", "dup"}, Unaries2={"star", "opt", "dup"},
+                                Binaries={"cat", "alt"}, MaxDepth=2, SubjChars={5, 7, 8}, MaxLen=3), 64, False),
+    ('deep-m', 'm', '1.0', dict(AtomNames={"a", "NL", "bol", "eol"}, OperandNames={"a", "NL", "bol", "eol"},
+                                OperandDepth=1, Unaries={"star", "opt", "plus"}, Unaries2={"star", "opt", "plus"},
+                                Binaries={"cat", "alt"}, MaxDepth=2, SubjChars={1, 7}, MaxLen=4), 64, False),
+]
+
+
+def subjects_of(consts) -> list:
+    import itertools
+    chars = sorted(consts['SubjChars'])
+    return [t for n in range(consts['MaxLen'] + 1) for t in itertools.product(chars, repeat=n)]
+
+
+def run_asts(chk: core.Check, totals: dict) -> None:
+    for name, flag, ver, consts, fn_mod, search_law in AST_CONFIGS[chk.tier]:
+        wd = os.path.join(chk.scratch, f'ast-{name}')
+        dot = os.path.join(wd, 'g.dot')
+        c = dict(XsdVersion=ver, Flag=flag, **consts)
+        invs = ['Laws'] + (['SearchLaw'] if search_law else [])
+        r = tla.require_ok(tla.run_tlc('RegexAst', tla.cfg_text(c, spec='Spec', invariants=invs), wd,
+                                       dump_dot=dot, workers=TLC_WORKERS), f'RegexAst/{name}')
+        chk.model(f'RegexAst/{name}', r)
+        g = tla.load_dot(dot)
+        os.remove(dot)
+        subjects = subjects_of(consts)
+        states = [(st['r'], frozenset(st['full']), frozenset(st['found'])) for st in g.states.values()]
+        states.sort(key=lambda x: (depth(x[0]), render(x[0])))
+        t0 = time.time()
+        jobs = [(flag, ver, states[k::48], subjects, fn_mod) for k in range(48)]
+        results = core.pool_map(ast_worker, [j for j in jobs if j[2]], procs=PROCS)
+        # blame: a compound pattern's failure is attributed to an atom that already fails on its own
+        raw = [f for res in results for f in res[1]]
+        bad_atoms = {(f[0][0], f[2]) for f in raw if f[1] == 0 and len(f[0]) == 1}
+        bad_any_mode = {a for a, _ in bad_atoms}
+        bag = Bag()
+        for tags, dp, mode, which, d, case, e, o in raw:
+            blame = next((t for t in tags if (t, mode) in bad_atoms), None) or \
+                next((t for t in tags if t in bad_any_mode), 'structure')
+            feat = dict(kind='ast', flag=flag, xsd_version=ver, mode=mode, which=which, blame=blame, direction=d)
+            bag.fail(feat, case, e, o, f"{case['pattern']!r} flag={flag!r} {mode}/{which}: should match {e}, "
+                                       f"should not match {o}" if not isinstance(o, list) or d in
+                     ('accepts_too_much', 'rejects_too_much', 'both') else f"{case['pattern']!r} {mode}: {o}")
+        collect(chk, [(res[0], [], res[2], res[3], res[4]) for res in results] + [bag.result()], totals)
+        chk.add('transitions', len(g.edges))
+        chk.add('traces_validated_against_impl', len(states))
+        print(f'  RegexAst/{name}: states={len(g.states)} edges={len(g.edges)} tlc={r.wall_s:.1f}s '
+              f'replay={time.time() - t0:.1f}s', flush=True)
+
+
+# ------------------------------------------------------------------------------------------
+# RegexFns: matches / tokenize / replace / analyze-string on (pattern, growing input)
+
+def as_list(v):
+    return v if isinstance(v, (list, tuple)) and not (isinstance(v, tuple) and v and v[0] in ('err', 'escaped')) else [v]
+
+
+def fns_worker(job):
+    flag, ver, states = job
+    bag = Bag()
+    t_cpu = time.process_time()
+    for r, s, nullable, found, adm in states:
+        types = node_types(r)
+        p = render(r, '(?:')
+        text = subj(s)
+        h = zlib.crc32((p + '|' + text).encode())
+        base = dict(kind='fns', flag=flag, has_group=bool(types & {'grp', 'dup'}), has_anchor=bool(types & {'bol', 'eol'}))
+        case0 = dict(kind='fns', pattern=p, subject=text, flag=flag, xsd_version=ver)
+        bag.add('pairs')
+        if adm and any(len(a['parts']) > 1 for a in adm):
+            bag.add('nontrivial')
+
+        def bad(fn, law, version, expected, observed, what):
+            out = ':'.join(map(str, observed)) if isinstance(observed, tuple) and observed and observed[0] in ('err', 'escaped') else 'value'
+            bag.fail(dict(base, fn=fn, law=law, outcome=out), dict(case0, fn=fn, parser=version), expected, observed, what)
+
+        versions = ('3.1', '2.0') if h % 4 == 0 else ('3.1',)
+        for version in versions:
+            pv = p if version != '2.0' else render(r, '(')
+            m = fn_matches(text, pv, flag, version, ver)
+            bag.add('evaluations')
+            if m is not found:
+                bad('matches', 'membership', version, found, m, f"matches({text!r}, {pv!r}, {flag!r}) should be {found}")
+            tok = xpath_call('tokenize($s,$p,$f)', version, ver, s=text, p=pv, f=flag)
+            rep0 = xpath_call("replace($s,$p,'$0',$f)", version, ver, s=text, p=pv, f=flag)
+            repx = xpath_call("replace($s,$p,'X',$f)", version, ver, s=text, p=pv, f=flag)
+            bag.add('evaluations', 3)
+            az = None
+            if version != '2.0':
+                az = xpath_call('for $e in analyze-string($s,$p,$f)/* return (local-name($e), string($e))',
+                                version, ver, s=text, p=pv, f=flag)
+                bag.add('evaluations')
+            if nullable:
+                # a pattern that matches the zero-length string is an error for these three functions
+                for fn, res in (('tokenize', tok), ('replace', rep0), ('analyze-string', az)):
+                    if res is None:
+                        continue
+                    if not (isinstance(res, tuple) and res and res[0] == 'err'):
+                        bad(fn, 'nullable-error', version, 'error (FORX0003)', res,
+                            f"{fn}({text!r}, {pv!r}): the pattern matches the zero-length string, an error is required")
+                continue
+            tok_l = as_list(tok)
+            if isinstance(tok, tuple) and tok and tok[0] in ('err', 'escaped'):
+                bad('tokenize', 'outcome', version, 'a sequence of strings', tok, f"tokenize({text!r}, {pv!r}) failed")
+                tok_l = None
+            entry = None
+            if az is not None:
+                if isinstance(az, tuple) and az and az[0] in ('err', 'escaped'):
+                    bad('analyze-string', 'outcome', version, 'a partition', az, f"analyze-string({text!r}, {pv!r}) failed")
+                else:
+                    az = as_list(az)
+                    kinds, texts = az[0::2], az[1::2]
+                    if ''.join(texts) != text:
+                        bad('analyze-string', 'concat', version, text, az,
+                            f"analyze-string({text!r}, {pv!r}): parts do not concatenate to the input")
+                    pos, parts = 0, []
+                    for k, t in zip(kinds, texts):
+                        parts.append(('m' if k == 'match' else 'n', pos, pos + len(t)))
+                        pos += len(t)
+                    parts = tuple(parts)
+                    entry = next((a for a in adm if a['parts'] == parts), None)
+                    if entry is None:
+                        bad('analyze-string', 'admissible', version, sorted(a['parts'] for a in adm), parts,
+                            f"analyze-string({text!r}, {pv!r}) = {az}: not an admissible match / non-match partition")
+            # tokenize = the tokens induced by the partition analyze-string returned (or, for 2.0, by some admissible one)
+            if tok_l is not None:
+                cands = [entry] if entry is not None else list(adm)
+                exp_tokens = [[subj(t) for t in a['tokens']] for a in cands]
+                if list(tok_l) not in exp_tokens:
+                    bad('tokenize', 'tokens', version, exp_tokens, list(tok_l),
+                        f"tokenize({text!r}, {pv!r}) = {list(tok_l)}: not the non-match parts of the partition {exp_tokens}")
+                exp_join = ['X'.join(t) for t in exp_tokens]
+                rx = repx[0] if isinstance(repx, list) and len(repx) == 1 else repx
+                if rx not in exp_join:
+                    bad('replace', 'join', version, exp_join, rx,
+                        f"replace({text!r}, {pv!r}, 'X') = {rx!r}: not the tokens joined by the replacement {exp_join}")
+            r0 = rep0[0] if isinstance(rep0, list) and len(rep0) == 1 else rep0
+            if r0 != text:
+                bad('replace', 'identity', version, text, r0, f"replace({text!r}, {pv!r}, '$0') should be the input")
+        if len(bag.samples) < 1 and adm and len(adm) > 1:
+            bag.samples.append(dict(pattern=p, subject=text, admissible_partitions=[list(a['parts']) for a in adm]))
+    bag.add('cpu_s', time.process_time() - t_cpu)
+    return bag.result()
+
+
+FNS_CONFIGS = {
+    'quick': [
+        ('d1', '', dict(PatAtoms={"a", "b", "any", "d", "c_na", "NL"}, PatUnaries={"star", "plus", "opt", "rep2", "grp", "dup"},
+                        PatBinaries={"cat", "alt"}, PatDepth=1, SubjChars={1, 4, 7, 8}, MaxLen=3)),
+        ('groups', '', dict(PatAtoms={"a", "b"}, PatUnaries={"plus", "grp"}, PatBinaries={"cat", "alt"}, PatDepth=2,
+                            SubjChars={1, 7, 8}, MaxLen=3)),
+        ('anchors', '', dict(PatAtoms={"a", "NL", "bol", "eol"}, PatUnaries={"plus", "opt"}, PatBinaries={"cat", "alt"},
+                             PatDepth=1, SubjChars={1, 7}, MaxLen=3)),
+        ('anchors-m', 'm', dict(PatAtoms={"a", "NL", "bol", "eol"}, PatUnaries={"plus", "opt"}, PatBinaries={"cat", "alt"},
+                                PatDepth=1, SubjChars={1, 7}, MaxLen=3)),
+    ],
+}
+FNS_CONFIGS['thorough'] = FNS_CONFIGS['quick'] + [
+    ('d1-wide', '', dict(PatAtoms={"a", "b", "any", "d", "D", "c_na", "c_sub", "NL", "w", "pL"},
+                         PatUnaries={"star", "plus", "opt", "rep2", "rep12", "plusL", "grp", "dup"},
+                         PatBinaries={"cat", "alt"}, PatDepth=1, SubjChars={1, 4, 7, 8}, MaxLen=4)),
+    ('groups2', '', dict(PatAtoms={"a", "b", "any"}, PatUnaries={"plus", "grp", "opt", "dup"}, PatBinaries={"cat", "alt"},
+                         PatDepth=2, SubjChars={1, 7, 8}, MaxLen=3)),
+    ('icase', 'i', dict(PatAtoms={"a", "A", "c_nA", "b"}, PatUnaries={"plus", "grp", "dup"}, PatBinaries={"cat", "alt"},
+                        PatDepth=1, SubjChars={5, 7, 8}, MaxLen=3)),
+]
+
+
+def run_fns(chk: core.Check, totals: dict) -> None:
+    for name, flag, consts in FNS_CONFIGS[chk.tier]:
+        wd = os.path.join(chk.scratch, f'fns-{name}')
+        dot = os.path.join(wd, 'g.dot')
+        c = dict(XsdVersion='1.0', Flag=flag, **consts)
+        r = tla.require_ok(tla.run_tlc('RegexFns', tla.cfg_text(c, spec='Spec', invariants=['Laws']), wd,
+                                       dump_dot=dot, workers=TLC_WORKERS), f'RegexFns/{name}')
+        chk.model(f'RegexFns/{name}', r)
+        g = tla.load_dot(dot)
+        os.remove(dot)
+        states = [(st['r'], st['s'], st['nullable'], st['found'], tuple(st['adm'])) for st in g.states.values()]
+        states.sort(key=lambda x: (render(x[0]), x[1]))
+        t0 = time.time()
+        jobs = [(flag, '1.0', states[k::48]) for k in range(48)]
+        collect(chk, core.pool_map(fns_worker, [j for j in jobs if j[2]], procs=PROCS), totals)
+        chk.add('transitions', len(g.edges))
+        chk.add('traces_validated_against_impl', len(g.edges))
+        print(f'  RegexFns/{name}: states={len(g.states)} edges={len(g.edges)} tlc={r.wall_s:.1f}s '
+              f'replay={time.time() - t0:.1f}s', flush=True)
+
+
+# ------------------------------------------------------------------------------------------
+# RegexSyntax: valid / invalid token strings, flag q
+
+def tok_text(toks) -> str:
+    return ''.join(t.replace('%', '\\') for t in toks)
+
+
+def syntax_worker(job):
+    mode, ver, states, do_fn = job
+    from elementpath.regex import translate_pattern, RegexError
+    bag = Bag()
+    t_cpu = time.process_time()
+    xp = mode != 'xsd'
+    for toks, valid, why in states:
+        p = tok_text(toks)
+        bag.add('token_strings')
+        if valid and len(toks) > 1:
+            bag.add('nontrivial')
+        feat0 = dict(kind='syntax', mode=mode, xsd_version=ver, expected='valid' if valid else 'invalid', why=why,
+                     ncg='(?:' in toks, in_class='[' in toks)
+        case0 = dict(kind='syntax', pattern=p, mode=mode, xsd_version=ver)
+        try:
+            py = translate_pattern(p, 0, ver, xp, xp, xp)
+            try:
+                re.compile(py)
+                obs = 'accepted'
+            except re.error:
+                obs = 're.error'
+            except Exception as e:   # noqa
+                obs = 'escaped:' + type(e).__name__
+        except RegexError:
+            obs = 'RegexError'
+        except Exception as e:   # noqa
+            obs = 'escaped:' + type(e).__name__
+        bag.add('evaluations')
+        exp = 'accepted' if valid else 'RegexError'
+        if obs != exp:
+            bag.fail(dict(feat0, stage='translate_pattern', observed=obs), dict(case0, stage='translate_pattern'), exp, obs,
+                     f"translate_pattern({p!r}) [{mode}, XSD {ver}]: the pattern is {'valid' if valid else 'invalid (' + why + ')'}"
+                     f", expected {exp}, observed {obs}")
+        if xp and do_fn:
+            version = '2.0' if mode == 'xp2' else '3.1'
+            res = fn_matches('a', p, '', version, ver)
+            bag.add('evaluations')
+            if valid:
+                o = 'accepted' if isinstance(res, bool) else ':'.join(map(str, res)) if isinstance(res, tuple) else repr(res)
+            else:
+                o = 'accepted' if isinstance(res, bool) else ':'.join(map(str, res)) if isinstance(res, tuple) else repr(res)
+            e = 'accepted' if valid else 'err:FORX0002'
+            if o != e:
+                bag.fail(dict(feat0, stage='fn:matches', observed=o), dict(case0, stage='fn:matches', parser=version), e, o,
+                         f"matches('a', {p!r}) [XPath {version}]: the pattern is {'valid' if valid else 'invalid (' + why + ')'}"
+                         f", expected {e}, observed {o}")
+    bag.add('cpu_s', time.process_time() - t_cpu)
+    return bag.result()
+
+
+def q_worker(job):
+    pairs = job
+    bag = Bag()
+    for t, u, expected in pairs:
+        res = fn_matches(tok_text(u), tok_text(t), 'q', '3.1')
+        bag.add('evaluations')
+        bag.add('q_pairs')
+        if expected and t != u and t:
+            bag.add('nontrivial')
+        if res is not expected:
+            bag.fail(dict(kind='q', expected=expected, observed=':'.join(map(str, res)) if isinstance(res, tuple) else res,
+                          first=(t[0] if t else '')),
+                     dict(kind='q', pattern=tok_text(t), subject=tok_text(u)), expected, res,
+                     f"matches({tok_text(u)!r}, {tok_text(t)!r}, 'q') should be {expected} (literal sub-string)")
+    return bag.result()
+
+
+ALL_TOKENS = {"a", "-", "^", "$", ".", "*", "?", "+", "{2}", "{1,2}", "{2,1}", "{1,}", "{,2}", "(", ")", "(?:", "|",
+              "[", "]", "%d", "%-", "%n", "%p{L}", "%1", "%e", "%f"}
+CLS_TOKENS = {"a", "-", "^", "]", "[", "%d", "%-", "*", "("}
+XP_TOKENS = {"a", "*", "?", "{2}", "(", ")", "|", "%1", "^", "[", "]", "(?:"}
+Q_TOKENS = {"a", ".", "*", "?", "(", "[", "]", "|", "^"}
+
+SYNTAX_CONFIGS = {
+    # name, Mode, XsdVersion, Tokens, First, MaxToks, also through fn:matches
+    'quick': [
+        ('xp3-all3', 'xp3', '1.0', ALL_TOKENS, ALL_TOKENS, 3, True),
+        ('xsd-all3', 'xsd', '1.0', ALL_TOKENS, ALL_TOKENS, 3, False),
+        ('xp2-all2', 'xp2', '1.1', ALL_TOKENS, ALL_TOKENS, 2, True),
+        ('xp3-4', 'xp3', '1.0', XP_TOKENS, XP_TOKENS, 4, True),
+        ('xsd-cls5', 'xsd', '1.0', CLS_TOKENS, {"["}, 5, False),
+        ('xp3-cls5-11', 'xp3', '1.1', CLS_TOKENS, {"["}, 5, True),
+    ],
+    'thorough': [
+        ('xp3-all3', 'xp3', '1.0', ALL_TOKENS, ALL_TOKENS, 3, True),
+        ('xp2-all3', 'xp2', '1.0', ALL_TOKENS, ALL_TOKENS, 3, True),
+        ('xsd-all3', 'xsd', '1.0', ALL_TOKENS, ALL_TOKENS, 3, False),
+        ('xsd11-all3', 'xsd', '1.1', ALL_TOKENS, ALL_TOKENS, 3, False),
+        ('xp3-5', 'xp3', '1.0', XP_TOKENS, XP_TOKENS, 5, True),
+        ('xsd-4', 'xsd', '1.0', XP_TOKENS | {"-", "%d", "{2,1}", "."}, XP_TOKENS | {"-", "%d", "{2,1}", "."}, 4, False),
+        ('xsd-cls6', 'xsd', '1.0', CLS_TOKENS, {"["}, 6, False),
+        ('xp3-cls6', 'xp3', '1.0', CLS_TOKENS, {"["}, 6, True),
+        ('xp3-cls5-11', 'xp3', '1.1', CLS_TOKENS | {"|", "%n"}, {"["}, 5, True),
+    ],
+}
+
+
+def run_syntax(chk: core.Check, totals: dict) -> None:
+    for name, mode, ver, tokens, first, n, do_fn in SYNTAX_CONFIGS[chk.tier]:
+        wd = os.path.join(chk.scratch, f'syn-{name}')
+        dot = os.path.join(wd, 'g.dot')
+        c = dict(Tokens=tokens, First=first, MaxToks=n, Mode=mode, XsdVersion=ver)
+        r = tla.require_ok(tla.run_tlc('RegexSyntax', tla.cfg_text(c, spec='Spec', invariants=['Laws']), wd,
+                                       dump_dot=dot, workers=TLC_WORKERS), f'RegexSyntax/{name}')
+        chk.model(f'RegexSyntax/{name}', r)
+        g = tla.load_dot(dot)
+        os.remove(dot)
+        sts = list(g.states.values())
+        unsure = sum(1 for st in sts if st['unsure'])
+        totals['syntax_unsure_excluded'] = totals.get('syntax_unsure_excluded', 0) + unsure
+        states = sorted((st['toks'], st['valid'], st['why']) for st in sts if not st['unsure'])
+        n_valid = sum(1 for s in states if s[1])
+        if not n_valid or n_valid == len(states):
+            raise tla.MachineryError(f'RegexSyntax/{name}: vacuous ({n_valid} valid of {len(states)})')
+        t0 = time.time()
+        jobs = [(mode, ver, states[k::48], do_fn) for k in range(48)]
+        collect(chk, core.pool_map(syntax_worker, [j for j in jobs if j[2]], procs=PROCS), totals)
+        chk.add('transitions', len(g.edges))
+        chk.add('traces_validated_against_impl', len(states))
+        if len(chk.coverage['samples']) < 12:
+            ex = next((s for s in states if s[1] and len(s[0]) == n and '[' in s[0]), None)
+            if ex:
+                chk.sample(dict(token_string=list(ex[0]), pattern=tok_text(ex[0]), mode=mode, valid=True))
+        print(f'  RegexSyntax/{name}: states={len(g.states)} valid={n_valid} unsure={unsure} tlc={r.wall_s:.1f}s '
+              f'replay={time.time() - t0:.1f}s', flush=True)
+    # flag q: the pattern is a literal; expected = the sub-string relation computed by TLC (qsub)
+    wd = os.path.join(chk.scratch, 'syn-q')
+    dot = os.path.join(wd, 'g.dot')
+    n = 3 if chk.tier == 'quick' else 4
+    c = dict(Tokens=Q_TOKENS, First=Q_TOKENS, MaxToks=n, Mode='xp3', XsdVersion='1.0')
+    r = tla.require_ok(tla.run_tlc('RegexSyntax', tla.cfg_text(c, spec='Spec', invariants=['Laws']), wd,
+                                   dump_dot=dot, workers=TLC_WORKERS), 'RegexSyntax/q')
+    chk.model('RegexSyntax/q', r)
+    g = tla.load_dot(dot)
+    os.remove(dot)
+    sts = sorted(((st['toks'], st['qsub']) for st in g.states.values()), key=lambda x: (len(x[0]), x[0]))
+    pairs = [(t, u, t in qs) for (u, qs) in sts for (t, _) in sts
+             if (len(t) <= 2 and len(u) <= 2) or (len(t) <= 1) or (len(t) == 2 and len(u) == n and zlib.crc32(repr((t, u)).encode()) % 16 == 0)]
+    collect(chk, core.pool_map(q_worker, [pairs[k::32] for k in range(32)], procs=PROCS), totals)
+    chk.add('traces_validated_against_impl', len(pairs))
+    print(f'  RegexSyntax/q: states={len(g.states)} pairs={len(pairs)}', flush=True)
 
 
 def collect(chk: core.Check, results, totals: dict) -> None:
@@ -451,10 +977,86 @@ def collect(chk: core.Check, results, totals: dict) -> None:
                     totals['more_unlisted_failures'] = totals.get('more_unlisted_failures', 0) + cnt - 1
 
 
+def replay_case(case: dict):
+    """Re-run one recorded case on the working tree; returns (still_failing, observed)."""
+    kind = case['kind']
+    if kind in ('class', 'ast'):
+        flag, ver, mode = case.get('flag', ''), case['xsd_version'], case['mode']
+        if mode == 'fn:matches':
+            def m(x):
+                return fn_matches(x, case['pattern'], flag, case.get('parser', '3.1'), ver)
+        else:
+            c = compile_pattern(case['pattern'], flag, ver, mode == 'xsd')
+            if isinstance(c, tuple):
+                return True, c
+            full = (kind == 'class' and mode == 'xpath') or case.get('which') == 'full' and mode == 'xpath'
+
+            def m(x):
+                return (c.fullmatch(x) if full else c.search(x)) is not None
+        obs = {x: m(x) for x in case['should_match'] + case['should_not_match']}
+        bad = any(obs[x] is not True for x in case['should_match']) or any(obs[x] is not False for x in case['should_not_match'])
+        return bad, obs
+    if kind == 'syntax':
+        states = [(tuple(), True, '')]
+        from elementpath.regex import translate_pattern, RegexError
+        xp = case['mode'] != 'xsd'
+        if case['stage'] == 'fn:matches':
+            res = fn_matches('a', case['pattern'], '', case['parser'], case['xsd_version'])
+            return None, 'accepted' if isinstance(res, bool) else ':'.join(map(str, res))
+        try:
+            re.compile(translate_pattern(case['pattern'], 0, case['xsd_version'], xp, xp, xp))
+            return None, 'accepted'
+        except RegexError:
+            return None, 'RegexError'
+        except re.error:
+            return None, 're.error'
+    if kind == 'q':
+        return None, fn_matches(case['subject'], case['pattern'], 'q', '3.1')
+    if kind == 'fns':
+        v, p, t, f, ver = case['parser'], case['pattern'], case['subject'], case['flag'], case['xsd_version']
+        fn = case['fn']
+        if fn == 'matches':
+            return None, fn_matches(t, p, f, v, ver)
+        if fn == 'tokenize':
+            r = xpath_call('tokenize($s,$p,$f)', v, ver, s=t, p=p, f=f)
+            return None, r if isinstance(r, tuple) else list(as_list(r))
+        if fn == 'replace':
+            return None, [xpath_call("replace($s,$p,'$0',$f)", v, ver, s=t, p=p, f=f),
+                          xpath_call("replace($s,$p,'X',$f)", v, ver, s=t, p=p, f=f)]
+        return None, xpath_call('for $e in analyze-string($s,$p,$f)/* return (local-name($e), string($e))', v, ver, s=t, p=p, f=f)
+    raise tla.MachineryError(f'unknown case kind {kind!r}')
+
+
+def replay(rec: dict) -> int:
+    core.setup_repo_path()
+    case = rec['case']
+    bad, obs = replay_case(case)
+    print('case     :', case)
+    print('what     :', rec.get('what'))
+    print('expected :', rec['expected'])
+    print('recorded :', rec['observed'])
+    print('observed :', obs)
+    if bad is None:
+        # the recorded observation was a violation: it still is one if it is reproduced unchanged
+        o = core.jsonable(obs)
+        r = rec['observed']
+        if case['kind'] == 'fns' and case['fn'] == 'replace':
+            bad = r in o or r == o
+        else:
+            bad = (o == r) or (o != rec['expected'] and case['kind'] in ('syntax', 'q'))
+    if bad:
+        print('VIOLATION property=C12 replay=(replayed)')
+        return 1
+    return 0
+
+
 def run(chk: core.Check) -> None:
     core.setup_repo_path()
     totals: dict = {}
     run_classes(chk, totals)
+    run_asts(chk, totals)
+    run_fns(chk, totals)
+    run_syntax(chk, totals)
     chk.coverage['details'] = {k: v for k, v in totals.items() if k != 'oracle_examples'}
     if totals.get('oracle_disagreements'):
         raise tla.MachineryError(f"specification and second oracle disagree on {totals['oracle_disagreements']} "
